@@ -127,11 +127,12 @@ class Check:
             "wall_s": round(time.time() - self.t0, 2),
             "violations": self.violations,
         }
-        os.makedirs(os.path.join(VERIF, "evidence"), exist_ok=True)
-        tmp = os.path.join(VERIF, "evidence", self.pid + ".json.tmp")
+        evdir = os.environ.get("VERIF_EVIDENCE_DIR") or os.path.join(VERIF, "evidence")   # seeded-change runs write elsewhere
+        os.makedirs(evdir, exist_ok=True)
+        tmp = os.path.join(evdir, self.pid + ".json.tmp")
         with open(tmp, "w") as fh:
             json.dump(ev, fh, indent=1, default=str)
-        os.rename(tmp, os.path.join(VERIF, "evidence", self.pid + ".json"))
+        os.rename(tmp, os.path.join(evdir, self.pid + ".json"))
         brief = {k: v for k, v in cov.items() if k not in ("samples", "notes")}
         print("[%s] tier=%s wall=%.1fs violations=%d coverage=%s" % (self.pid, self.tier, ev["wall_s"], self.violations, json.dumps(brief, default=str)[:1500]), flush=True)
         sys.exit(1 if self.violations else 0)
